@@ -25,3 +25,27 @@ Print Assumptions C12_result_status.
 Theorem C12_untouched_operation_keeps_status : forall v tag t, update_status v NotModified tag t = t.
 Proof. exact update_status_not_modified. Qed.
 Print Assumptions C12_untouched_operation_keeps_status.
+
+(** ** Global statements (induction over the whole rewrite, optional chains included for the first) *)
+From IastRw Require Import HookSites WfTree P_Status.
+
+(** With telemetry on, for every program and configuration: a NotModified result has count 0, a
+    Modified one has count at least 1 (status and count never disagree). *)
+Theorem C12_status_and_count_agree : forall c file prog ast t,
+  c_verbosity c <> VOff ->
+  rewrite c file prog = OutOk ast t ->
+  (t_status t = NotModified -> t_count t = 0%N) /\ (t_status t = Modified -> (1 <= t_count t)%N).
+Proof. exact rewrite_status_count. Qed.
+Print Assumptions C12_status_and_count_agree.
+
+(** A file is reported NotModified exactly when the tree handed to the printer contains no reference to
+    the hook namespace -- neither a hook call nor the prologue (well-formed Script/Module without
+    optional chaining that does not mention the namespace, telemetry on). *)
+Theorem C12_not_modified_iff_no_hook_reference : forall c file k lo hi body interp ast t,
+  c_verbosity c <> VOff ->
+  (k = KScript \/ k = KModule) ->
+  wf_all (Node (K k lo hi) [Node Lst body; interp]) = true /\ ns_count (Node (K k lo hi) [Node Lst body; interp]) = 0 ->
+  rewrite c file (Node (K k lo hi) [Node Lst body; interp]) = OutOk ast t ->
+  (t_status t = NotModified <-> ns_count ast = 0) /\ (t_status t = Modified \/ t_status t = NotModified).
+Proof. exact rewrite_notmodified_iff_no_reference. Qed.
+Print Assumptions C12_not_modified_iff_no_hook_reference.
